@@ -107,7 +107,9 @@ def short_fn(fn):
 OVERLOADED = {"sbe_schema_validator::validate_encoding", "sbe_schema_validator::is_constant_composite_element"}
 
 
-LAYOUT_FUNCS = ("sbe_schema_validator::validate_field_offset", "sbe_schema_validator::validate_element_offset",
+MUTATORS = {"insert", "emplace", "try_emplace", "emplace_back", "push_back", "erase", "clear", "create"}
+EFFECT_CLASSES = ("sbe_schema_validator::", "sbe_schema_cpp_validator::")
+LAYOUT_FUNCS_OLD = ("sbe_schema_validator::validate_field_offset", "sbe_schema_validator::validate_element_offset",
                 "sbe_schema_validator::validate_block_length")
 
 
@@ -123,6 +125,21 @@ def effects_of(fn):
         elif k == "CXXOperatorCallExpr" and n.get("op") in ("=", "+="):
             xs = ([n["obj"]] if n.get("obj") is not None else []) + (n.get("args") or [])
             out.append((opt_norm(gen.expr_text(xs[0], 0, fn)), n["op"], opt_norm(gen.expr_text(xs[1], 0, fn)), guard_of(fn, n, par)))
+        elif k == "CXXMemberCallExpr" and (n.get("callee") or {}).get("name") in MUTATORS and n.get("obj") is not None:
+            # state updates on member containers (visited sets, processing states, contexts)
+            o = n["obj"]
+            root = o
+            while root is not None and root.get("k") in ("MemberExpr", "ImplicitCastExpr") and root.get("base") is not None and root.get("k") == "MemberExpr":
+                if root["base"].get("k") == "CXXThisExpr":
+                    break
+                root = root.get("base")
+            is_member = False
+            for y in walk(o):
+                if y.get("k") == "MemberExpr" and (y.get("base") or {}).get("k") == "CXXThisExpr":
+                    is_member = True
+            if is_member:
+                args = ", ".join(opt_norm(gen.expr_text(a, 0, fn)) for a in n.get("args") or [])
+                out.append((opt_norm(gen.expr_text(o, 0, fn)), "." + n["callee"]["name"], args[:160], guard_of(fn, n, par)))
     return sorted(set((a, b, c, tuple(d)) for a, b, c, d in out))
 
 
@@ -138,8 +155,11 @@ def extract(f=None):
         sites.setdefault(k, []).append((g, fc))
     effects = {}
     for fn in gen.sbeppc_functions(f):
-        if short_fn(fn) in LAYOUT_FUNCS:
-            effects.setdefault(short_fn(fn), []).append((effects_of(fn), fn))
+        sf = short_fn(fn)
+        if sf.startswith(EFFECT_CLASSES) and not fn.get("lambda"):
+            eff = effects_of(fn)
+            if eff:
+                effects.setdefault(sf, []).append((eff, fn))
     return sites, effects
 
 
@@ -184,10 +204,12 @@ def check(chk, only_prefixes=None):
         if not found:
             chk.broke("G-GUARD: layout function %s not found" % fnname)
             continue
-        want = sorted((a, b, c, tuple(d)) for a, b, c, d in rows)
+        variants = rows if rows and isinstance(rows[0], list) and rows[0] and isinstance(rows[0][0], list) else [rows]
+        wants = [sorted((a, b, c, tuple(d)) for a, b, c, d in v) for v in variants]
+        want = wants[0]
         for eff, fn in found:
-            # template instantiations differ only in the parameter name (f / element / level)
-            if eff == want:
+            # template instantiations may differ (e.g. constexpr-if arms): any recorded variant is accepted
+            if eff in wants:
                 chk.ok("G-EFFECT", fnname + "#" + (fn["qn"][-60:]), {"function": fnname, "assignments": len(eff)})
             else:
                 missing = [x for x in want if x not in eff]
@@ -210,7 +232,12 @@ def regen():
         if len(gs) > 1:
             out["sites"][k]["other_instantiations"] = [list(g) for g in gs[1:]]
     for k, lst in sorted(effects.items()):
-        out["effects"][k] = [list(x[:3]) + [list(x[3])] for x in lst[0][0]]
+        vs = []
+        for eff, _ in lst:
+            v = [list(x[:3]) + [list(x[3])] for x in eff]
+            if v not in vs:
+                vs.append(v)
+        out["effects"][k] = vs
     os.makedirs(os.path.dirname(TABLE), exist_ok=True)
     json.dump(out, open(TABLE, "w"), indent=1)
     print("wrote", TABLE, len(out["sites"]), "sites")
